@@ -17,7 +17,7 @@ Model of the header checks of `lib/check/__init__.py` and of `lib.gettext.parse_
 * `checkProject`, `checkTranslator` — with the `if/elif` chains in source order and the `translator_emails` dict;
 * `checkAll`        — the header stages of `Checker.check` in source order (`check_dates` is `Date.checkDates` of C18).
 
-External results are parameters (`Ext`): `email.utils.parseaddr(v)[1]`, `urllib.parse.urlparse(v).scheme` (`none` = it
+External results are parameters (`Ext`): `parse_address(v)[1]` (= `email.utils.parseaddr(v)[1]`, `''` on `RecursionError`), `urllib.parse.urlparse(v).scheme` (`none` = it
 raised `ValueError`), `difflib.get_close_matches` (two call sites), `str.lower`, the `re` classes `\w \s \d`.
 Core Lean only.
 -/
@@ -66,7 +66,7 @@ structure UDB where
 /-- results of library calls -/
 structure Ext where
   db : UDB
-  /-- `email.utils.parseaddr(v)[1]` -/
+  /-- `parse_address(v)[1]`: `email.utils.parseaddr(v)[1]`, and `''` when the library raises `RecursionError` (fix 875595a) -/
   parseaddr : Str → Str
   /-- `urllib.parse.urlparse(v).scheme`; `none` = `ValueError` -/
   urlScheme : Str → Option Str
